@@ -398,9 +398,32 @@ def refused_second_cases(rng, tier):
     return cases
 
 
+def rereport_cases(rng, tier):
+    """the bound on the retries holds whatever arrives in between: a flow reported by ONE node only, that node reporting it
+    again between the expiry scans (each scan finds it due and still uncorrelated). It is dropped by the scan after the
+    last retry all the same - never kept for ever, never exported half-filled - and what the node reports after that
+    starts a new flow."""
+    cases = []
+    for side in "SD":
+        for kind in ("inter", "inter-allow", "ingress-drop"):
+            for pattern in ("rs" * 6, "rsrrsrsrs", "srsrsrs", "rssrsrs", "rsrsrsrrrsrsrs"):
+                for _ in range(1 if tier == "quick" else 8):
+                    extras = rng.choice(EXTRAS)
+                    ops, n = ["agg new %d %d" % (A, I), record(kind, side, 1, 1, extras), "agg dump"], 1
+                    for ch in pattern:
+                        if ch == "r":
+                            n += 1
+                            ops += ["agg adv %d" % rng.choice([1, 5, 20]), record(kind, side, 1, n, extras), "agg dump"]
+                        else:
+                            ops += ["agg adv %d" % A, "agg scan - %d" % rng.choice([0, 1]), "agg dump", "agg snap"]
+                    cases.append(Case(ops, "retry-with-rereports", True, True))
+    return cases
+
+
 def run(ctx):
     rng = random.Random(ctx.seed * 1000003 + 7)
     cases = gen_cases(rng, ctx.tier)
+    cases += rereport_cases(random.Random(ctx.seed * 1000003 + 709), ctx.tier)
     cases += refused_second_cases(random.Random(ctx.seed * 1000003 + 708), ctx.tier)
     # own stream of random numbers: the histories above are the ones the seed generated before
     cases += ip16_cases(random.Random(ctx.seed * 1000003 + 707), ctx.tier)
